@@ -1889,17 +1889,21 @@ fn verify_nsec(
         Some((_, _)) if response_code == ResponseCode::NXDomain && !have_answer => {
             nsec1_yield(Proof::Secure, "no direct match, no wildcard")
         }
-        // For wildcard expansion responses, we need to prove there are no closer matches and no exact match.
-        // (RFC 4035 5.3.4 and B.6/C.6)
-        Some((_, _))
-            if response_code == ResponseCode::NoError
-                && have_answer
-                && no_closer_matches(&query.name, soa_name, nsecs, wildcard_base_name.as_ref())
-                && find_nsec_covering_record(soa_name, &query.name, nsecs).is_some() =>
+        // For wildcard expansion responses, we need to prove there is no exact match and no closer
+        // match: the NSEC that covers the query name must show that the closest encloser of the
+        // query name is the parent of the wildcard the answer was expanded from (RFC 4035 5.3.4 and
+        // B.6/C.6, RFC 4592 3.3.1). Whether the wildcard at the closest encloser is itself covered
+        // is immaterial here: when the answer was expanded from it, it exists.
+        _ if response_code == ResponseCode::NoError
+            && have_answer
+            && wildcard_base_name.as_ref().is_some_and(|wildcard| {
+                nsec_closest_encloser(&query.name, covering_nsec_name, covering_nsec_data)
+                    == wildcard.base_name()
+            }) =>
         {
             nsec1_yield(
                 Proof::Secure,
-                "no direct match, covering wildcard present for wildcard expansion response",
+                "no direct match, closest encloser is the parent of the expanded wildcard",
             )
         }
         // For wildcard no data responses, we need to prove a wildcard matching wildcard_name does not contain
@@ -1973,6 +1977,26 @@ fn no_closer_matches(
     }
 
     true
+}
+
+/// The closest encloser of `name` as shown by the NSEC record that covers it: the longest ancestor
+/// that `name` has in common with the NSEC's owner name or with its next domain name. Both of those
+/// names exist, and so do all of their ancestors (RFC 4592 2.2.2); nothing exists between them.
+fn nsec_closest_encloser(name: &Name, nsec_name: &Name, nsec_data: &NSEC) -> Name {
+    let shared_ancestor = |other: &Name| {
+        let mut ancestor = other.clone();
+        while !ancestor.zone_of(name) {
+            ancestor = ancestor.base_name();
+        }
+        ancestor
+    };
+
+    let from_owner = shared_ancestor(nsec_name);
+    let from_next = shared_ancestor(nsec_data.next_domain_name());
+    match from_owner.iter().len() >= from_next.iter().len() {
+        true => from_owner,
+        false => from_next,
+    }
 }
 
 /// Find the NSEC record covering `test_name`, if any.
